@@ -1,1 +1,164 @@
-/- C13 — theorems (placeholder until the property is built). -/
+/-
+  C13 — Results are local: a pixel depends on its neighbourhood, not on its position.
+
+  The general theory, for every step, image, crop and offset (no bound):
+    * steps that read their input at fixed offsets (stencils) are local, with the bounding cone of their
+      offsets, and translation equivariant;
+    * locality composes (cones add) and pairs (cones join);
+    * a local step gives, on any crop containing the (clipped) cone of a pixel, the same value at that
+      pixel as on the whole image, wherever the crop starts;
+    * a stencil whose offsets are symmetric in the row direction commutes with the vertical flip.
+  Which radii the real steps have is observed on the implementation by the whole-vs-crop differential
+  (harness/props/C13.py).
+-/
+import PandoraModel.Model.Locality
+
+namespace Pandora.C13
+open Pandora.Locality
+
+theorem inCone_mono {R S : Cone} (h : R.up ≤ S.up ∧ R.down ≤ S.down ∧ R.left ≤ S.left ∧ R.right ≤ S.right)
+    {p q : Px} (hq : inCone R p q) : inCone S p q := by
+  unfold inCone at *
+  omega
+
+theorem Local.mono {α β : Type} {R S : Cone} {f : Img α → Img β}
+    (h : R.up ≤ S.up ∧ R.down ≤ S.down ∧ R.left ≤ S.left ∧ R.right ≤ S.right) (hf : Local R f) : Local S f :=
+  fun a b p hab => hf a b p (fun q hq => hab q (inCone_mono h hq))
+
+/-- **Locality composes: the cones add.** -/
+theorem Local.comp {α β γ : Type} {R S : Cone} {f : Img α → Img β} {g : Img β → Img γ}
+    (hf : Local R f) (hg : Local S g) : Local (R.add S) (g ∘ f) := by
+  intro a b p hab
+  apply hg
+  intro q hq
+  apply hf
+  intro r hr
+  apply hab
+  unfold inCone Cone.add at *
+  simp only at *
+  omega
+
+/-- two local steps run side by side (e.g. left and right products): the cones join -/
+theorem Local.pair {α β γ : Type} {R S : Cone} {f : Img α → Img β} {g : Img α → Img γ}
+    (hf : Local R f) (hg : Local S g) :
+    Local (R.sup S) (fun a p => match f a p, g a p with
+      | some x, some y => some (x, y)
+      | _, _ => none) := by
+  intro a b p hab
+  have h1 := hf a b p (fun q hq => hab q (inCone_mono (by simp [Cone.sup]; omega) hq))
+  have h2 := hg a b p (fun q hq => hab q (inCone_mono (by simp [Cone.sup]; omega) hq))
+  simp only [h1, h2]
+
+/-- a pointwise step (winner-takes-all on a pixel's costs, refinement of a pixel's disparity) has an
+    empty cone -/
+theorem pointwise_local {α β : Type} (F : Option α → Option β) :
+    Local Cone.zero (fun (a : Img α) p => F (a p)) := by
+  intro a b p hab
+  have := hab p (by unfold inCone Cone.zero; omega)
+  simp only [this]
+
+theorem foldl_cone_ge (offs : List Px) (R : Cone) :
+    let C := offs.foldl (fun R d => (⟨max R.up (-d.1).toNat, max R.down d.1.toNat, max R.left (-d.2).toNat, max R.right d.2.toNat⟩ : Cone)) R
+    R.up ≤ C.up ∧ R.down ≤ C.down ∧ R.left ≤ C.left ∧ R.right ≤ C.right := by
+  induction offs generalizing R with
+  | nil => simp
+  | cons d ds ih =>
+    simp only [List.foldl_cons]
+    have := ih ⟨max R.up (-d.1).toNat, max R.down d.1.toNat, max R.left (-d.2).toNat, max R.right d.2.toNat⟩
+    simp only at this ⊢
+    omega
+
+theorem mem_coneOf (offs : List Px) (R : Cone) (d : Px) (hd : d ∈ offs) :
+    let C := offs.foldl (fun R d => (⟨max R.up (-d.1).toNat, max R.down d.1.toNat, max R.left (-d.2).toNat, max R.right d.2.toNat⟩ : Cone)) R
+    (-d.1).toNat ≤ C.up ∧ d.1.toNat ≤ C.down ∧ (-d.2).toNat ≤ C.left ∧ d.2.toNat ≤ C.right := by
+  induction offs generalizing R with
+  | nil => simp at hd
+  | cons e es ih =>
+    simp only [List.foldl_cons]
+    simp only [List.mem_cons] at hd
+    rcases hd with rfl | hd
+    · have := foldl_cone_ge es ⟨max R.up (-d.1).toNat, max R.down d.1.toNat, max R.left (-d.2).toNat, max R.right d.2.toNat⟩
+      simp only at this ⊢
+      omega
+    · exact ih _ hd
+
+/-- **A stencil is local**, with the bounding cone of its offsets: window sums (offsets = the window),
+    matching costs at a disparity (the window and the window displaced by the disparity), medians and
+    weighted means over a filter window, cross-checking (the columns reachable through the interval). -/
+theorem stencil_local {α β : Type} (offs : List Px) (G : List (Option α) → Option β) :
+    Local (coneOf offs) (stencil offs G) := by
+  intro a b p hab
+  unfold stencil
+  congr 1
+  apply List.map_congr_left
+  intro d hd
+  apply hab
+  have h := mem_coneOf offs Cone.zero d hd
+  unfold coneOf inCone
+  simp only at h ⊢
+  omega
+
+/-- **A stencil does not look at absolute positions.** -/
+theorem stencil_equivariant {α β : Type} (offs : List Px) (G : List (Option α) → Option β) :
+    Equivariant (stencil offs G) := by
+  intro t a
+  funext p
+  unfold stencil shift
+  congr 1
+  apply List.map_congr_left
+  intro d _
+  congr 1
+  ext <;> simp <;> omega
+
+theorem Equivariant.comp {α β γ : Type} {f : Img α → Img β} {g : Img β → Img γ}
+    (hf : Equivariant f) (hg : Equivariant g) : Equivariant (g ∘ f) := by
+  intro t a
+  simp only [Function.comp, hf t a, hg t (f a)]
+
+/-- **Crop = whole.** If the part of the cone of `p` that lies in the image is inside the crop `S`,
+    processing the crop gives at `p` exactly what processing the whole image gives. -/
+theorem crop_eq_whole {α β : Type} {R : Cone} {f : Img α → Img β} (hf : Local R f)
+    (S : Px → Prop) [DecidablePred S] (a : Img α) (p : Px)
+    (hS : ∀ q, inCone R p q → S q ∨ a q = none) :
+    f (restrict S a) p = f a p := by
+  apply hf
+  intro q hq
+  unfold restrict
+  rcases hS q hq with h | h
+  · simp [h]
+  · by_cases hs : S q <;> simp [hs, h]
+
+/-- ... wherever the crop starts: re-indexing the crop so that its corner is the origin moves the result
+    with it. -/
+theorem crop_anywhere {α β : Type} {R : Cone} {f : Img α → Img β} (hf : Local R f) (he : Equivariant f)
+    (S : Px → Prop) [DecidablePred S] (a : Img α) (t p : Px)
+    (hS : ∀ q, inCone R (p.1 + t.1, p.2 + t.2) q → S q ∨ a q = none) :
+    f (shift t (restrict S a)) p = f a (p.1 + t.1, p.2 + t.2) := by
+  rw [he t (restrict S a)]
+  exact crop_eq_whole hf S a _ hS
+
+/-- **Vertical flip**: a stencil whose function gives the same result when the rows of its window are
+    listed bottom-up (odd-sized windows centred on the pixel: sums, medians, extrema, counts) commutes
+    with flipping the image. -/
+theorem stencil_vflip {α β : Type} (offs : List Px) (G : List (Option α) → Option β)
+    (hG : ∀ (a : Img α) (p : Px),
+      G (offs.map fun d => a (p.1 + d.1, p.2 + d.2)) = G (offs.map fun d => a (p.1 - d.1, p.2 + d.2)))
+    (a : Img α) : stencil offs G (vflip a) = vflip (stencil offs G a) := by
+  funext p
+  unfold stencil vflip
+  simp only
+  rw [hG a (-p.1, p.2)]
+  congr 1
+  apply List.map_congr_left
+  intro d _
+  congr 1
+  ext <;> simp <;> omega
+
+/-! ### Non-vacuity: a 3×3 window sum is a stencil with cone (1,1,1,1); a matching window displaced by a
+    disparity range has its cone extended by the range on the column side -/
+
+def win3 : List Px := [(-1, -1), (-1, 0), (-1, 1), (0, -1), (0, 0), (0, 1), (1, -1), (1, 0), (1, 1)]
+example : coneOf win3 = ⟨1, 1, 1, 1⟩ := by decide
+example : coneOf (win3 ++ win3.map fun d => (d.1, d.2 + 3)) = ⟨1, 1, 1, 4⟩ := by decide
+
+end Pandora.C13
